@@ -168,6 +168,7 @@ def run(ctx, rep):
     rep.floor("facade obligations", n_f, ftab["facade_floor"])
     reset_rule(ctx, rep, ftab)
     uninit_rule(ctx, rep)
+    callerstate_rule(ctx, rep, ftab)
     # "decoding is unaffected by bytes that follow the stream": every rejection that compares a stream count
     # with the *remaining input* depends on trailing bytes unless the bound can never fire for a valid stream,
     # i.e. unless each item really consumes what the guard assumes (shared rule with C01)
@@ -261,3 +262,70 @@ def uninit_rule(ctx, rep):
     rep.floor("UNINIT: uninitialised scalar heap arrays on the codec paths", n, 0)
     rep.control("UNINIT", "c06_uninit_bad", ctl.get("c06_uninit_bad") is False, "partially filled scratch array must be reported")
     rep.control("UNINIT", "c06_uninit_ok (negative)", ctl.get("c06_uninit_ok") is True, "loop-filled array must be discharged")
+
+
+def callerstate_rule(ctx, rep, ftab):
+    """CALLERSTATE: state that lives in an object the *caller* hands in and may reuse (the DecoderBuffer keeps the
+    bitstream version of the previous decode across Init()) is written before it is read: in the decode root no
+    call of the getter, and no callee that reaches the getter, runs before the setter call."""
+    F = ctx.F
+    rep.rules_text.append(
+        "CALLERSTATE: DecoderBuffer::Init keeps the bitstream version of the previous decode, so in "
+        "PointCloudDecoder::Decode every read of DecoderBuffer::bitstream_version (directly or through a callee) "
+        "is dominated by the set_bitstream_version call that installs the header's version; otherwise the outcome "
+        "depends on what the buffer object decoded before")
+    n = 0
+    fired = False
+    cg = F.callgraph()
+    for ent in ftab.get("caller_state", []):
+        getters = {f.key for f in F.find(ent["getter"])}
+        if not getters:
+            raise AnalysisBroken("CALLERSTATE: getter %s not found" % ent["getter"])
+        # functions that can reach the getter
+        rev = {}
+        for k, outs in cg.items():
+            for o in outs:
+                rev.setdefault(o, set()).add(k)
+        can = set(getters)
+        stack = list(getters)
+        while stack:
+            x = stack.pop()
+            for c in rev.get(x, ()):
+                if c not in can:
+                    can.add(c)
+                    stack.append(c)
+        roots = list(F.need(ent["root"])) + [f for f in F.fns.values() if f.name.startswith("verif_control::c06_callerstate")]
+        for fn in roots:
+            is_ctl = fn.name.startswith("verif_control::")
+            setb = [b for c, b, rk, ev in fn.calls() if strip_targs(c.get("fn") or "") == ent["setter"]]
+            if not setb:
+                rep.add(Obligation("CALLERSTATE", fn.base, "installs the header's version", fn.loc, VIOLATION,
+                                   control=is_ctl, detail="no call of %s" % ent["setter"]))
+                fired |= is_ctl
+                continue
+            bad = []
+            calls_by_block = {}
+            for c, b, rk, ev in fn.calls():
+                calls_by_block.setdefault(b, []).append(c)
+            for b, cs in calls_by_block.items():
+                for c in sorted(cs, key=lambda x: x.get("i", 0)):
+                    base = strip_targs(c.get("fn") or "")
+                    if base == ent["setter"]:
+                        break           # later calls in this block run after the setter
+                    if any(fn.block_dominates(sb, b) and sb != b for sb in setb):
+                        continue
+                    if b in setb and False:
+                        continue
+                    tg = F.targets(c)
+                    if base == ent["getter"] or any(t.key in can for t in tg):
+                        bad.append("%s at %s" % (base.replace("draco::", ""), fn.site(c.get("loc", ""))))
+            n += 0 if is_ctl else 1
+            fired |= is_ctl and bool(bad)
+            rep.add(Obligation("CALLERSTATE", fn.base, "no read of the buffer's version before it is set", fn.loc,
+                               VIOLATION if bad else DISCHARGED, control=is_ctl,
+                               detail="the version left in the caller's DecoderBuffer by an earlier decode is read "
+                               "before this decode sets it: %s" % "; ".join(sorted(set(bad))[:4]) if bad else
+                               "every call that can reach %s is dominated by %s" % (
+                                   ent["getter"].replace("draco::", ""), ent["setter"].replace("draco::", ""))))
+    rep.floor("caller-state roots", n, 1)
+    rep.control("CALLERSTATE", "c06_callerstate_bad", fired, "a read of the stale version before the set must be reported")
